@@ -98,6 +98,10 @@ fn cases(tier: Tier) -> Vec<Case> {
             out.push(Case { nuni: 0, a: NumSpec::constant(1.5), b: NumSpec::constant(-2.5), storage: 0, large: Some((size, relation)) });
         }
     }
+    // sequential history passes (relation code 100: first order, 101: second order)
+    for rel in [100u8, 101] {
+        out.push(Case { nuni: 4, a: NumSpec::constant(1.5), b: NumSpec::constant(-2.5), storage: 0, large: Some((0, rel)) });
+    }
     out
 }
 
@@ -381,7 +385,76 @@ fn names_ok(result_mask: u8, want_mask: u8) -> bool {
     result_mask == want_mask
 }
 
+/// history independence: on ONE thread, operands on every ordered list of distinct names over 4 names are combined
+/// pair by pair, each built fresh and dropped before the next (65 x 65 ordered pairs of layouts, then the same again
+/// backwards) - any remembered alignment, union or look-up meets more distinct layouts than a small cache holds
+fn check_sequence(second: bool, case: &Case, idx: u64, acc: &mut Acc) {
+    let u = universe(4);
+    let cj = || serde_json::to_value(case).unwrap();
+    let lists = ordered_sublists(4);
+    let spec = |list: &Vec<usize>, v: f64, side: usize| -> NumSpec {
+        let n = list.len();
+        let g: Vec<f64> = (0..n).map(|k| gval(list[k], side, false)).collect();
+        let mut h = vec![0.0; n * n];
+        for i in 0..n {
+            for j in 0..n {
+                h[i * n + j] = hval(list[i], list[j], side, false);
+            }
+        }
+        NumSpec { v, names: list.clone(), g, h: if second { h } else { vec![] } }
+    };
+    let mut order: Vec<(usize, usize)> = vec![];
+    for i in 0..lists.len() {
+        for j in 0..lists.len() {
+            order.push((i, j));
+        }
+    }
+    let back: Vec<(usize, usize)> = order.iter().rev().cloned().collect();
+    order.extend(back);
+    acc.nontrivial();
+    for (step, (i, j)) in order.iter().enumerate() {
+        acc.evals_add(3);
+        let (sa, sb) = (spec(&lists[*i], 1.5, 0), spec(&lists[*j], -2.5, 1));
+        if !second {
+            let (a, b) = (sa.dual(&u), sb.dual(&u));
+            let (ra, rb) = (sa.refd1(), sb.refd1());
+            for (op, got, want) in [("add", &a + &b, ra.add(&rb)), ("mul", &a * &b, ra.mul(&rb)), ("div", &a / &b, ra.div(&rb))] {
+                if let Err(e) = cmp_dual(&got, &want, &u, TOL, TOL) {
+                    acc.violate(&format!("after-other-layouts/Dual/{}", op), idx, cj(), json!({"step": step, "left": sa.names, "right": sb.names}), json!(e));
+                    return;
+                }
+            }
+            let a2 = spec(&lists[*j], 1.5, 0).dual(&u);
+            if (a == a2) != (lists[*i].iter().all(|n| lists[*j].contains(n)) && lists[*j].iter().all(|n| lists[*i].contains(n))) {
+                acc.violate("after-other-layouts/Dual/eq", idx, cj(), json!({"step": step, "left": sa.names, "right": lists[*j]}), json!(a == a2));
+                return;
+            }
+        } else {
+            let (a, b) = (sa.dual2(&u), sb.dual2(&u));
+            let (ra, rb) = (sa.refd2(), sb.refd2());
+            for (op, got, want) in [("add", &a + &b, ra.add(&rb)), ("mul", &a * &b, ra.mul(&rb)), ("div", &a / &b, ra.div(&rb))] {
+                if let Err(e) = cmp_dual2(&got, &want, &u, TOL, TOL, TOL) {
+                    acc.violate(&format!("after-other-layouts/Dual2/{}", op), idx, cj(), json!({"step": step, "left": sa.names, "right": sb.names}), json!(e));
+                    return;
+                }
+            }
+            let a2 = spec(&lists[*j], 1.5, 0).dual2(&u);
+            if (a == a2) != (lists[*i].iter().all(|n| lists[*j].contains(n)) && lists[*j].iter().all(|n| lists[*i].contains(n))) {
+                acc.violate("after-other-layouts/Dual2/eq", idx, cj(), json!({"step": step, "left": sa.names, "right": lists[*j]}), json!(a == a2));
+                return;
+            }
+        }
+    }
+    acc.sample(cj);
+}
+
 pub fn check(case: &Case, idx: u64, acc: &mut Acc) {
+    if let Some((_, relation)) = case.large {
+        if relation >= 100 {
+            check_sequence(relation == 101, case, idx, acc);
+            return;
+        }
+    }
     if let Some((size, relation)) = case.large {
         check_large(size, relation, case, idx, acc);
         return;
@@ -560,6 +633,52 @@ pub fn check(case: &Case, idx: u64, acc: &mut Acc) {
             acc.violate(&format!("eq/Dual2/{}", cls), idx, cj(), json!(want_eq), json!([e1, e2]));
         }
     }
+    // ---------------- the public re-alignment entry points: a number moved onto another variable list is the same
+    // number by name; the two results of a union share their list and carry exactly the union of the names
+    {
+        use rateslib::dual::Vars as _;
+        let (a1, b1) = (sa.dual(&u), sb.dual(&u));
+        let (a2, b2) = (sa.dual2(&u), sb.dual2(&u));
+        let (ra1, rb1, ra2, rb2) = (sa.refd1(), sb.refd1(), sa.refd2(), sb.refd2());
+        let want_mask = ra1.mask | rb1.mask;
+        acc.evals_add(6);
+        for (how, (x, y)) in [("to_union_vars", a1.to_union_vars(&b1, None)), ("to_combined_vars", a1.to_combined_vars(&b1))] {
+            let ok = match (RefDual::from_dual(&x, &u), RefDual::from_dual(&y, &u)) {
+                (Ok(rx), Ok(ry)) => ref_eq(&rx, &ra1, false) && ref_eq(&ry, &rb1, false) && x.ptr_eq(&y) && names_ok(rx.mask, want_mask) && names_ok(ry.mask, want_mask),
+                _ => false,
+            };
+            if !ok {
+                acc.violate(&format!("realign/Dual/{}", how), idx, cj(), json!("both numbers unchanged by name, one shared list holding exactly the union"), json!(format!("{:?} / {:?}", x, y)));
+            }
+        }
+        for (how, (x, y)) in [("to_union_vars", a2.to_union_vars(&b2, None)), ("to_combined_vars", a2.to_combined_vars(&b2))] {
+            let ok = match (RefDual::from_dual2(&x, &u), RefDual::from_dual2(&y, &u)) {
+                (Ok(rx), Ok(ry)) => ref_eq(&rx, &ra2, true) && ref_eq(&ry, &rb2, true) && x.ptr_eq(&y) && names_ok(rx.mask, want_mask) && names_ok(ry.mask, want_mask),
+                _ => false,
+            };
+            if !ok {
+                acc.violate(&format!("realign/Dual2/{}", how), idx, cj(), json!("both numbers unchanged by name, one shared list holding exactly the union"), json!(format!("{:?} / {:?}", x.real(), y.real())));
+            }
+        }
+        // onto the other operand's list when that list holds every name of this one
+        if sa.names.iter().all(|n| sb.names.contains(n)) {
+            let x = a1.to_new_vars(b1.vars(), None);
+            let ok = RefDual::from_dual(&x, &u).map(|rx| ref_eq(&rx, &ra1, false) && x.ptr_eq(&b1)).unwrap_or(false);
+            if !ok {
+                acc.violate("realign/Dual/to_new_vars", idx, cj(), json!("unchanged by name, on the target list"), json!(format!("{:?}", x)));
+            }
+            let x = a2.to_new_vars(b2.vars(), None);
+            let ok = RefDual::from_dual2(&x, &u).map(|rx| ref_eq(&rx, &ra2, true) && x.ptr_eq(&b2)).unwrap_or(false);
+            if !ok {
+                acc.violate("realign/Dual2/to_new_vars", idx, cj(), json!("unchanged by name, on the target list"), json!(format!("{:?}", x.real())));
+            }
+            let nf = Dual::new_from(&b1, sa.v, sa.name_strings(&u));
+            let okn = nf.ptr_eq(&b1) && nf.real() == sa.v && RefDual::from_dual(&nf, &u).map(|r| (0..N).all(|i| r.val.g[i] == if sa.names.contains(&i) { 1.0 } else { 0.0 })).unwrap_or(false);
+            if !okn {
+                acc.violate("realign/Dual/new_from", idx, cj(), json!("unit sensitivities to exactly the given names, on the other's list"), json!(format!("{:?}", nf)));
+            }
+        }
+    }
     // ---------------- negative-zero twins: a derivative of -0.0 is a zero derivative. Each operand with a zero
     // entry is re-built with -0.0 in its place; equality with the other operand (either order) must not change,
     // and the twin equals the original.
@@ -633,7 +752,7 @@ pub fn run(ctx: &Ctx, replay_file: Option<String>) -> ! {
          are a function of the NAME (never of the position), so all list permutations of the same number are covered. \
          Non-trivial: pairs whose vars_cmp class (observed through the public vars_cmp) is not ArcEquivalent; the run \
          refuses to report if any of the five classes or the 'equal pair' class is empty. Oracle: by-name RefDual \
-         result, union of names each once, matching shapes, == iff equal by name with missing == 0, also when a zero derivative is written -0.0 (negative-zero twin of every operand that has a zero entry). In addition a \
+         result, union of names each once, matching shapes, == iff equal by name with missing == 0, also when a zero derivative is written -0.0 (negative-zero twin of every operand that has a zero entry). The re-alignment entry points (to_union_vars, to_combined_vars, to_new_vars onto a covering list, new_from) leave every number unchanged by name on one shared list. History independence: on one thread the 65 x 65 ordered pairs of layouts over 4 names are combined (+, *, /, ==) one after the other, forwards and backwards, each operand built fresh. In addition a \
          menu of LARGE layouts (7 .. 17, 33, 63, 64, 65, 70, 130 names, non-dyadic derivative values) x 9 relations of the \
          second list to the first (same, rotated, reversed, every other name, superset, disjoint, overlapping, ends fixed \
          with the middle reversed, thinned and pairwise swapped) against a dense by-name reference.",
